@@ -52,6 +52,8 @@ def strat_T(tier):
         'kind': U.field_kinds, 'seed': U.seeds, 'adtype': st.sampled_from(['complex128', 'complex128', 'float64']), 'layout': U.layouts,
         'ab': st.tuples(U.nice_float(-2, 2), U.nice_float(-2, 2), U.nice_float(-2, 2), U.nice_float(-2, 2)).map(lambda t: [round(v, 3) for v in t]),
         'mag': st.sampled_from([0, 0, 0, 0, -9, -12, 9, -30, 30, -100, 100]),       # decimal exponent of an overall amplitude factor: the relations are homogeneous in the field
+        # an earlier transform in the same session that shares the sampling of one axis only (bases cached per axis)
+        'pre': st.sampled_from(['none', 'none', 'share-rows', 'share-cols']),
     })
 
 
@@ -95,6 +97,11 @@ def check_T(case, ctx):
 
     def T(f, o=tuple(out), s=sh):
         return np.asarray(ctx.call(T0, f, dx_in, efl, lam, dx_out, o, shift=s, method=method))
+    pre = case.get('pre', 'none')
+    if pre != 'none':
+        pshape = (ny, nx + 1) if pre == 'share-rows' else (ny + 1, nx)
+        T(np.ones(pshape, dtype=complex))
+        ctx.label('pre-call:' + pre)
     Ta = T(a)
     U.check_shape(Ta, out, 'fixed_sampling')
     norm = dx_in * dx_out / (lam * efl)          # 1/sqrt(NyQy NxQx)
@@ -126,7 +133,8 @@ def strat_mask(tier):
         'Q': st.one_of(st.sampled_from([1.0, 2.0, 0.5, 1.37]), U.nice_float(0.4, 4).map(lambda v: round(v, 3))),
         'shift': _shift(), 'phys': _phys(), 'method': st.sampled_from(['mdft', 'czt']),
         'mkind': st.sampled_from(['real', 'complex', 'binary', 'int-pm', 'uint8', 'bool']), 'via': st.sampled_from(['function', 'wavefront', 'wavefront-mask']),
-        'kind': U.field_kinds, 'seed': U.seeds, 'mag': st.sampled_from([0, 0, 0, 0, -9, -12, 9, -30, 30, -100, 100])})
+        'kind': U.field_kinds, 'seed': U.seeds, 'mag': st.sampled_from([0, 0, 0, 0, -9, -12, 9, -30, 30, -100, 100]),
+        'mask_space': st.sampled_from(['psf', 'pupil', 'default'])})     # a mask given as a Wavefront: its dx is the mask spacing whatever its `space` label
 
 
 def _mask(case, salt=0):
@@ -177,6 +185,8 @@ def check_mask(case, ctx):
     sh = (case['shift'][0] * fpm_dx, case['shift'][1] * fpm_dx)
     shifted = any(s != 0 for s in sh)
     ctx.nt(ny != nx or shifted or case['mkind'] == 'complex' or tuple(case['mshape']) != tuple(shape))
+    if via == 'wavefront-mask':
+        ctx.label('mask-wavefront-space:' + case.get('mask_space', 'psf'))
     ctx.label(method, 'via:' + via, 'mask:' + case['mkind'], 'shifted' if shifted else 'unshifted', 'square' if ny == nx else 'nonsquare',
               'mask-shape-eq' if tuple(case['mshape']) == tuple(shape) else 'mask-shape-differs')
 
@@ -185,7 +195,8 @@ def check_mask(case, ctx):
             return np.asarray(ctx.call(P.to_fpm_and_back, field, dx, efl, lam, mask, fpm_dx, shift=sh, method=method))
         w = P.Wavefront(field, lam, dx)
         if via == 'wavefront-mask':
-            mask = P.Wavefront(mask, lam, fpm_dx, space='psf')
+            msp = case.get('mask_space', 'psf')
+            mask = P.Wavefront(mask, lam, fpm_dx) if msp == 'default' else P.Wavefront(mask, lam, fpm_dx, space=msp)
             wo = ctx.call(w.to_fpm_and_back, efl, mask, None, method=method, shift=sh)
         else:
             wo = ctx.call(w.to_fpm_and_back, efl, mask, fpm_dx, method=method, shift=sh)
@@ -283,6 +294,7 @@ def strat_exec(tier):
         'Q': st.one_of(q.map(lambda v: [v, v]), st.tuples(q, q).map(list)), 'scalarQ': st.booleans(), 'pad': st.tuples(pad, pad).map(list),
         'shift': _shift(), 'method': st.sampled_from(['mdft', 'czt']), 'fwd': st.booleans(), 'kind': U.field_kinds, 'seed': U.seeds, 'layout': U.layouts,
         'ab': st.tuples(U.nice_float(-2, 2), U.nice_float(-2, 2), U.nice_float(-2, 2), U.nice_float(-2, 2)).map(lambda t: [round(v, 3) for v in t]),
+        'pre': st.sampled_from(['none', 'none', 'share-rows', 'share-cols']),
     })
 
 
@@ -311,6 +323,12 @@ def check_exec(case, ctx):
     def T(f, q=Q, o=tuple(out), s=sh):
         qq = q[0] if (scalarQ and q is Q) else q
         return np.asarray(ctx.call(T0, f, qq, o, s))
+    pre = case.get('pre', 'none')
+    if pre != 'none':
+        # an earlier call on the shared executor with the same (n, Q, samples, shift) on one axis and another length on the other axis
+        pshape = (ny, nx + 1) if pre == 'share-rows' else (ny + 1, nx)
+        ctx.call(T0, np.ones(pshape, dtype=complex), Q, tuple(out), sh)
+        ctx.label('pre-call:' + pre)
     Ta = T(a)
     U.check_shape(Ta, out, fn)
     scale = max(float(np.abs(a).sum() + np.abs(b).sum()) / math.sqrt(ny * Q[0] * nx * Q[1]) * (1 + abs(al) + abs(be)), 1e-300)
